@@ -234,7 +234,7 @@ static void initPrefs(
 
    while(k < pref.size())            // merge sort
    {
-      if(rowWeight[row[i]] < colWeight[col[j]])
+      if(i < base.nRows() && (j >= base.nCols() || rowWeight[row[i]] < colWeight[col[j]]))
       {
          pref[k++] = base.rId(row[i++]);
 
